@@ -66,6 +66,10 @@ class CaseFault:
             self.hit += 1
             self.dropped += 1
             return []
+        if k == "drop-seg-seq" and self.attempt <= len(self.spec["idxs"]) and idx == self.spec["idxs"][self.attempt - 1]:
+            self.hit += 1
+            self.dropped += 1
+            return []
         if k == "drop-last" and att_ok and nxt == 0:
             self.hit += 1
             self.dropped += 1
@@ -196,6 +200,11 @@ async def one_case(sh: Shard, rig, case, r, regime):
         foreign = [i for i in range(min(len(after), 1024)) if after[i] != B0[i] and not any(after[i] == v[i] for v in versions)][:8]
         if foreign:
             sh.violation("C01:async:foreign-bytes", f"bytes changed to something that is not the spa's value at {foreign}", dict(wit, first_bad=foreign))
+        if varying and fk == "drop-seg-seq" and len(after) == 1024 and not any(after[start : start + length] == v[start : start + length] for v in versions):
+            # nothing was delayed or duplicated here, only dropped: every reply chain is cut from the
+            # spa's block at one instant, so what is installed must be ONE of those blocks, not a
+            # splice of the segments that survived from two different chains
+            sh.violation("C01:async:spliced-replies", "the installed range is a splice of segments of different replies (the spa's block changed between the requests; only losses were injected)", wit)
     elif ret is False:
         sh.count("async_failure")
         if after != B0 or installs:
@@ -396,6 +405,10 @@ def gen_cases(tier, seed):
         add("B", st, L, {"kind": "blackout"}, retries=2)
         add("B", st, L, {"kind": "drop-seg", "idx": min(1, n - 1), "attempts": [1, 2]}, retries=3, varying=True)
         add("B", st, L, {"kind": "swap", "idx": 0, "attempts": [1]}, retries=3, varying=True) if n > 1 else None
+        if n > 2:
+            # attempt 1 loses a late segment, attempt 2 an earlier one, the spa changes in between
+            for k_, j_ in ((n - 1, 0), (n // 2, max(0, n // 2 - 1)), (2, 1)):
+                add("B", st, L, {"kind": "drop-seg-seq", "idxs": [k_, j_]}, retries=4, varying=True)
     # ---- a retry budget of 0 (nothing may be sent, nothing installed), given explicitly
     for st, L in [(0, 1024), (256, 479), (5, 1)]:
         add("B", st, L, none, retries=0)
@@ -453,7 +466,7 @@ def main(tier, seed):
     except ImportError:
         run.extra["threaded_part"] = "not built yet"
     fk = run.sets.get("async_fault_kinds", set())
-    for k in ("none", "drop-seg", "dup-seg", "swap", "drop-req", "dup-req", "drop-last", "blackout", "random", "cancelled"):
+    for k in ("none", "drop-seg", "dup-seg", "swap", "drop-req", "dup-req", "drop-last", "blackout", "random", "cancelled", "drop-seg-seq"):
         run.need(k in fk, f"fault kind {k} never exercised")
     run.need(run.counters.get("async_transfers_cancelled_in_flight", 0) >= 2 and run.counters.get("async_transfers_cancelled_behind_another", 0) >= 2, "no transfer was cancelled in flight / while waiting behind another")
     if not run.counters.get("real_world_unavailable"):
